@@ -19,8 +19,7 @@ run()
 
 MODULE_SRC = """import wrt
 wrt.trace({"ev": "modimport", "m": __name__})
-if wrt.WORLD["modules"][__name__].get("importError"):
-    raise ImportError("module %s cannot be imported" % __name__)
+wrt.fail_import(__name__, "import")
 
 
 def test_suite():
@@ -202,7 +201,10 @@ def gen_world(rng, n_layers=None, tests_per_layer=(0, 4), kinds=None, p_fault=0.
                 for t in ts:
                     modules[m]["suites"].append({"t": "leaf", "id": t["id"], "lyr": None if unit else li})
     if import_errors and rng.random() < 0.5:
-        modules["pz.tests"] = {"suites": [], "importError": True}
+        # how the module fails: at import or in test_suite(), with an ordinary exception or with one that is
+        # not an Exception (a module calling sys.exit() when a dependency is missing)
+        modules["pz.tests"] = {"suites": [], "importError": rng.choice(
+            [True, True, "sysexit0", "sysexit3", "base", "suite:error", "suite:sysexit0"])}
     return {"layers": layers, "tests": tests, "modules": modules}
 
 
@@ -273,6 +275,8 @@ def cli_args(d, o, extra=()):
         args += ["-a", str(o["at_level"])]
     if o.get("all"):
         args.append("--all")
+    if o.get("only_level") is not None:
+        args += ["--only-level", str(o["only_level"])]
     if o.get("list"):
         args.append("--list-tests")
     if o.get("xml"):
@@ -347,16 +351,30 @@ def layer_name(world, li):
     return UNIT_NAME if lay["kind"] == "unit" else lay["module"] + "." + lay["name"]
 
 
-def flat_leaves(node, dlyr, out):
+def flat_leaves(node, dlyr, out, dlvl=1):
+    """(test id, effective layer, effective level): the nearest declaration on the way to the root wins"""
     if node["t"] == "leaf":
-        out.append((node["id"], node["lyr"] if node.get("lyr") is not None else dlyr))
+        out.append((node["id"], node["lyr"] if node.get("lyr") is not None else dlyr,
+                    node["lvl"] if node.get("lvl") is not None else dlvl))
     else:
         l2 = node["lyr"] if node.get("lyr") is not None else dlyr
+        v2 = node["lvl"] if node.get("lvl") is not None else dlvl
         for k in node["kids"]:
-            flat_leaves(k, l2, out)
+            flat_leaves(k, l2, out, v2)
 
 
-def discovered_groups(world, accept=None):
+def level_eligible(o):
+    """the level predicate of an option vector (C09: at_level <= 0 means every level)"""
+    if o.get("only_level") is not None:
+        return lambda lvl: lvl == o["only_level"]
+    if o.get("all"):
+        return lambda lvl: True
+    a = o.get("at_level")
+    a = 1 if a is None else a
+    return lambda lvl: a <= 0 or lvl <= a
+
+
+def discovered_groups(world, accept=None, eligible=None):
     """tests_by_layer_name in insertion order, as discovery builds it: modules in sorted path order"""
     unit = next(i for i, l in enumerate(world["layers"]) if l["kind"] == "unit")
     order = sorted(world["modules"], key=lambda m: m.replace(".", "/") + ".py")
@@ -373,7 +391,9 @@ def discovered_groups(world, accept=None):
         for s in mod["suites"]:
             leaves = []
             flat_leaves(s, unit, leaves)
-            for tid, li in leaves:
+            for tid, li, lvl in leaves:
+                if eligible is not None and not eligible(lvl):
+                    continue
                 if accept is not None and not accept(tid):
                     continue
                 if li not in index:
